@@ -25,6 +25,9 @@ type C09Case struct {
 	// was offered a TestRequest) take the place of the probes in the oracle: a peer
 	// that stays silent for a second period is disconnected all the same.
 	RefuseProbes bool `json:"refuse_probes,omitempty"`
+	// Relogon (acceptor): after the warm-up the peer logs out and at once logs on
+	// again on the same connection; the pattern then runs in the second logon.
+	Relogon bool `json:"relogon,omitempty"`
 }
 
 func tolT(n int) time.Duration {
@@ -76,6 +79,12 @@ func genC09(t *rapid.T) *C09Case {
 	for i := rapid.IntRange(0, 3).Draw(t, "warmup"); i > 0; i-- {
 		adv(rapid.Int64Range(1, N).Draw(t, "warmDt"))
 		add(rig.Step{Op: "in", In: anyInbound("warm")})
+	}
+	if cfg.Role == "acceptor" && rapid.IntRange(0, 3).Draw(t, "relogon") == 0 {
+		c.Relogon = true
+		adv(rapid.Int64Range(1, N).Draw(t, "relogonDt"))
+		add(rig.Step{Op: "in", In: g.logout()})
+		add(rig.Step{Op: "in", In: g.goodLogon(n)})
 	}
 	eps := rapid.SampledFrom([]int64{1, int64(time.Millisecond), T / 100}).Draw(t, "eps")
 	c.Pattern = rapid.SampledFrom([]string{"total-silence", "ends-just-before-T", "ends-just-after-T", "answer-in-second-period", "steady"}).Draw(t, "pattern")
@@ -290,6 +299,9 @@ func checkC09(c *C09Case, rec *evid.Rec) (vs []pbt.Violation) {
 	}
 	if nProbes > 0 {
 		rec.Hist("probed")
+	}
+	if c.Relogon {
+		rec.Hist("second-logon-on-the-connection")
 	}
 	if c.RefuseProbes && nProbes > 0 {
 		rec.Hist("probe-refused-by-application-handler")
